@@ -26,7 +26,8 @@ EXPLANATION = (
     "the same that is written into the new name; R7 `is_atom` is exactly: one element, one atom, neutral, not the electron, not on a "
     "surface (decided by truth table, whatever the arrangement of guard clauses); R8 no process-wide table (memo of parsed names, cached "
     "symbol list) stands between a name and its decomposition (shared with C17.R3); R9 the symbol tables consulted are the configured ones, "
-    "the defaults only when nothing at all is configured (shared with C01.R6).")
+    "the defaults only when nothing at all is configured (shared with C01.R6); R10 every entry point of Network that parses names installs both of "
+    "its own symbol lists first, unconditionally (shared with C17.R3).")
 ASSUMPTIONS = [
     "the composition a given name decodes to, the pairing of a count with the symbol before it, mass numbers (data tables), the gas-phase counterpart and the behaviour of "
     "`re` on a given alphabet are NOT decided: this check decides necessary structural conditions of the tokenizer, not its results",
@@ -67,6 +68,12 @@ def check(ctx):
     # R9 the symbol tables consulted are the configured ones: the defaults stand in only when NOTHING was configured (shared with C01.R6)
     from .c01 import _r6 as pseudo_rule
     ctx.absorb(pseudo_rule, "R9", only=lambda o: ("known_pseudoelements" in o.key or "pseudo-filter" in o.key) and o.outcome != "MISSING")
+    # R10 ... and they are THIS network's: every entry point of Network that parses names installs both of its lists first, whatever
+    # they contain (shared with C17.R3; the guarded installation of today's tree is the known finding F-17a, which is also a C08 defect:
+    # a network with default lists decodes its names with the symbols of whichever network was used before it)
+    from .c17 import _r3 as installation_rule
+    ctx.absorb(lambda sub: installation_rule(sub, package(sub.tree)), "R10",
+               only=lambda o: o.key.startswith("Network.") and "installation" in o.key and o.outcome != "MISSING")
 
 
 # ------------------------------------------------------------------ R1 / R2
